@@ -448,7 +448,32 @@ def flood_case(case):
         s2.SELECT_SLEEP = 0.0
 
 
+def exact_buffer_case(case):
+    """the peer's bytes end exactly where the provider's receive buffer ends (a segment of exactly the size it asks
+    recv() for): nothing more is coming, the provider must work with what it has"""
+    from pynetdicom2 import userdataitems as ud
+    r = scen.Runner('acceptor', scen.default_acceptor_user())
+    r.settle()
+    base = len(scen.rq_pdu(extra=[ud.SOPClassExtendedNegotiationSubItem('1.2.3', b'')]).encode())
+    size = case['size']
+    raw = scen.rq_pdu(extra=[ud.SOPClassExtendedNegotiationSubItem('1.2.3', b'p' * (size - base))]).encode()
+    if len(raw) != size:
+        return 'harness: could not build a request of %d bytes (%d)' % (size, len(raw))
+    r.feed(raw)
+    r.settle()
+    s = r.summary()
+    if s['blocked']:
+        return 'an A-ASSOCIATE-RQ of exactly %d bytes (the size of the receive buffer) in one segment: %s' % (size, s['blocked'])
+    if s['crash']:
+        return 'an A-ASSOCIATE-RQ of exactly %d bytes: the loop died: %s' % (size, s['crash'])
+    if s['state'] != 6:
+        return 'an A-ASSOCIATE-RQ of exactly %d bytes was not accepted: Sta%d' % (size, s['state'])
+    return None
+
+
 def replay(case):
+    if case.get('exact_buffer'):
+        return exact_buffer_case(case)
     if case.get('flood'):
         return flood_case(case)
     if case.get('endless'):
@@ -503,6 +528,18 @@ def run(chk):
     chk.count('flood')
     if v and not (common.timing_verdict(v) and not (flood_case(fc) and flood_case(fc))):
         chk.violation('C13:flood', v, fc)
+    for size in (16384, 32768):
+        xc = {'exact_buffer': True, 'size': size}
+        try:
+            v = exact_buffer_case(xc)
+        except Exception as e:  # pylint: disable=broad-except
+            common.raise_for(common.describe_exc(e))
+        if v and v.startswith('harness:'):
+            raise common.Infra(v) if hasattr(common, 'Infra') else RuntimeError(v)
+        chk.case(repr(xc), True, {'segment of exactly the receive size': size})
+        chk.count('exact-buffer')
+        if v:
+            chk.violation('C13:exact-buffer', v, xc)
     for st in (2, 6):
         ec = {'endless': True, 'state': st}
         try:
